@@ -239,7 +239,6 @@ Proof.
     split; [apply Z.div_pos; nia|]. apply Z.div_le_upper_bound; nia.
 Qed.
 
-Fixpoint zsum (l : list Z) : Z := match l with [] => 0 | x :: l' => x + zsum l' end.
 Lemma sum_left_val l : forall acc s, sum_left acc l = Some s -> s = acc + zsum l.
 Proof.
   induction l as [|x l IH]; intros acc s H; cbn [sum_left zsum] in *; [assert (s = acc) by congruence; lia|].
